@@ -615,11 +615,14 @@ func vC35Mentions(c *vC35Case) vC35Mentioned {
 			}
 		}
 	}
-	for _, cr := range c.creates {
-		m.apps = append(m.apps, cr.id)
-		m.accts = append(m.accts, 1000+cr.id)
+	// what was created earlier in the group gets extra weight (the created-asset / created-app rules)
+	for w := 0; w < 3; w++ {
+		for _, cr := range c.creates {
+			m.apps = append(m.apps, cr.id)
+			m.accts = append(m.accts, 1000+cr.id)
+		}
+		m.assets = append(m.assets, c.asas...)
 	}
-	m.assets = append(m.assets, c.asas...)
 	m.apps = append(m.apps, c.appid)
 	m.accts = append(m.accts, 1000+c.appid)
 	return m
